@@ -15,26 +15,28 @@ CHECKS.update({
     "C12": {"category": "exploration", "technique": PBT + " of a scripted sampler against a sequential reference model of the dedup loop",
             "text": "Generated (history, scripted draw sequence, batch size, pass budget) cases over a tiny alphabet so that repeats "
                     "are the norm; the real BaseSampler.sample is compared with an independent reference model on requested sizes, "
-                    "returned multiset, untouched positions and give-up condition. No counterexample in 6e3 (quick) / 3e5 (thorough) cases.",
+                    "returned multiset, untouched positions and give-up condition; in half of the cases the same sampler object is asked again "
+                    "with a grown / altered / unrelated history. No counterexample in 6e3 (quick) / 3e5 (thorough) cases.",
             "note": "exact float equality of rows (integer alphabet); BaseSampler.sample only (stateful samplers disable dedup)."},
     "C13": {"category": "exploration", "technique": PBT + " against an exact-rational radical inverse, trial-division primes and an independently computed golden-ratio vector",
-            "text": "halton() compared with exact rational arithmetic for start indices up to 2^16+2^12 and 40 bases; prime cache "
+            "text": "halton() at EVERY index 1..2^16+2^13 for each of the first 40 primes against an integer reversed-digit reference (complete "
+                    "enumeration in every run), and random (size, start, dimension) calls against exact rational arithmetic; prime cache "
                     "histories against trial division; sampler objects on a 2^-17 grid where the sequence index is decoded from the "
                     "output, checking start range, gap-free continuation across batches, split == joint, and re-seed resets.",
-            "note": "sampled, not exhaustive, over (seed, dimension, batch sizes); tolerance half a grid step for snapped coordinates."},
+            "note": "exhaustive over the index x base domain of halton(); sampled over (seed, dimension, batch sizes) for sampler objects; tolerance half a grid step for snapped coordinates."},
     "C15": {"category": "exploration", "technique": "exhaustive enumeration of a value lattice + " + PBT + " against an independent ordered validator and exact-rational grid rule",
             "text": "Every specification with two bound sub-lists of length 0-2 over a 7-value lattice and precision lists over a "
                     "5-value lattice (lists and ndarrays) is checked for the documented exception class, its payload and the documented "
                     "order of checks (exhaustive on that lattice; 3-parameter sub-lattice in the thorough tier); random specs with 1-6 "
                     "parameters check the grid against an exact-rational end-point rule.",
-            "note": "exhaustive only over the stated lattice; huge well-formed grids (>5e6 points per parameter) are not constructed; random specs include > 2^63-point spaces and integer-typed inputs."},
+            "note": "exhaustive only over the stated lattice; huge well-formed grids (>5e6 points per parameter) are not constructed; random specs include > 2^63-point spaces, signed / unsigned integer arrays up to the ends of the type's range, ints next to 2^53 (validation only) and integer parameters of magnitude up to 1e15."},
     "C19": {"category": "exploration", "technique": PBT + " of operation histories against a reference model and a twin agent",
             "text": "Histories of policy/learn/reseed on MABEpsilonGreedy are compared step by step with a reference implementation of the "
-                    "incremental update rule and with a twin agent (determinism); reward sequences on MABCalibrationEnv are compared "
+                    "incremental update rule, with a twin agent (determinism) and, after a re-seeding, with an agent constructed from another seed; reward sequences on MABCalibrationEnv are compared "
                     "with the relative-improvement rule.",
             "note": "1e-12 relative tolerance; exploration probabilities are not tested statistically."},
     "C20": {"category": "exploration", "technique": PBT + " with definitional oracles (HP first-order condition via a hand-written stencil)",
-            "text": "Generated series of length 3-2000 in seven shapes and six scales, lambda over ten decades: cycle+trend=series, "
+            "text": "Generated series of length 3-2000 in seven shapes and six scales, lambda over ten decades (float, Python int, numpy int): cycle+trend=series, "
                     "the HP optimality condition, definitions of the three derived filters, finiteness of the 18 moments.",
             "note": "residual tolerance scales with (1+16*lambda); log filters on positive series only."},
     "C07": {"category": "exploration", "technique": PBT + " differential against independent pure-Python reference implementations of each loss definition",
@@ -42,7 +44,7 @@ CHECKS.update({
                     "documented definition (naive DFT, tuple-based GSL words, explicit kernel sums, hand-written 18 moments). "
                     "Rediscovered the Minkowski filter defect (fixed) and the GSL base-10 word-packing collision (known finding, "
                     "classified by a second reference that differs only in word identity, so any other deviation still fails).",
-            "note": "tolerance 1e-9 relative; ill-conditioned MSM inputs excluded and counted; GSL word lengths <= 18."},
+            "note": "tolerance 1e-9 relative; ill-conditioned MSM inputs excluded and counted; GSL word lengths up to 70 (the known packing finding is recognised by an exact emulation of the unchanged arithmetic)."},
     "C08": {"category": "exploration", "technique": PBT + " with metamorphic relations (weight linearity, permutations, purity, fresh-vs-used object)",
             "text": "Nine loss kinds (five built-ins, four user-defined stubs on BaseLoss) x relations: inputs unchanged, used == fresh "
                     "object, weighted sum of single-coordinate losses, zero weight, coordinate and ensemble permutations, "
@@ -64,7 +66,8 @@ CHECKS.update({
             "text": "Real Calibrator objects over generated line-ups (incl. XGBoost and best-batch), ensembles, simulation lengths, "
                     "pure models (incl. 1e200-scale / infinite output) and losses; after every calibrate(n) the eleven clauses "
                     "of the statement are checked against what the wrappers recorded (re-running the pure model with the recorded "
-                    "seed, re-evaluating an independent copy of the loss).",
+                    "seed, re-evaluating an independent copy of the loss); in a third of the multi-call histories the line-up is replaced "
+                    "between calls (set_samplers) and every recorded id must belong to exactly one sampler class.",
             "note": "n_jobs=1; an exception out of calibrate ends the history (prefix still checked)."},
     "C09": {"category": "exploration", "technique": PBT + " of operation histories (calibrate / restore) with a class-level sample() logger; scripted and epsilon-greedy agents",
             "text": "Round-robin: the i-th batch over the whole life (across calibrate calls and checkpoint restores) comes from "
@@ -74,7 +77,8 @@ CHECKS.update({
             "note": "RL runs use the real thread under the OS scheduler (interleavings are C10's subject)."},
     "C14": {"category": "exploration", "technique": PBT + " of calibrate() histories with scripted losses against an exact-rational rounding model",
             "text": "Loss scripts concentrated at 0.5*10^-p; batches executed per call, counters, verbose-independence and the restored "
-                    "checkpoint are compared with a reference model. Rediscovered both early-stopping defects (fixed).",
+                    "checkpoint are compared with a reference model; a second sub-check lets a user-defined scheduler's update() raise once "
+                    "and applies the same rule to the later calls on that object. Rediscovered both early-stopping defects (fixed).",
             "note": "values within 1e-12 relative of the boundary are excluded (either verdict accepted)."},
     "C18": {"category": "exploration", "technique": PBT + " of calibrate / set_samplers / set_scheduler / checkpoint / read-labels histories",
             "text": "Id table monotonicity and uniqueness after every operation, labels equal to the producing class (class-level "
@@ -110,8 +114,9 @@ CHECKS.update({
                     "of the model, the loss and each sampler is made to raise in turn; calibrate() must propagate that exception, the "
                     "history must be the twin's completed-batch prefix, no non-daemon thread may survive (interpreter-level liveness, "
                     "hang detection), and a follow-up calibrate(1) must work. Rediscovered and fixed the missing try/finally around the "
-                    "scheduler session and the particle-swarm crash after a failed first batch.",
-            "note": "n_jobs=1; one fault per run; a hang counts only when a thread started by the call is demonstrably alive."},
+                    "scheduler session and the particle-swarm crash after a failed first batch. Sub-check 'parallel': n_jobs=2, a slow model, "
+                    "one invocation raises while a sibling is in flight; no thread of the process may still execute the model afterwards.",
+            "note": "n_jobs=1 in the enumerations (n_jobs=2 sampled); one fault per run; a hang counts only when a thread started by the call is demonstrably alive."},
     "C10": {"category": "exploration", "technique": "systematic schedule enumeration (stateless DFS over choice prefixes) of the two real threads under a deterministic controller that owns every synchronisation point; PBT draws scenarios and choice vectors for larger bounds; reference model for rewards and learn/run correspondence",
             "text": "The real calibrate loop and the real agent loop run as OS threads whose queue/flag/thread operations are schedule "
                     "points; for the small session lists of each tier EVERY schedule is executed (tens of thousands), larger scenarios "
